@@ -120,7 +120,16 @@ __CPROVER_ensures((!p->closed && g_sendq.n > 0) ==> TF_SEND_ARMED(p))
 #define TX_ENT_PRE(i) ((i) >= P->txaio.a_nio || P->txaio.a_iov[i].iov_len == 0 || __CPROVER_is_fresh(P->txaio.a_iov[i].iov_buf, P->txaio.a_iov[i].iov_len))
 #define T_RV   OLD(P->txaio.a_result)
 #define T_N    OLD(P->txaio.a_count)
-#define T_TOT  IOV_TOTAL(IOV_OL, IOV_ON, TXA)
+/* the vector in flight has at most 3 entries: prefix sums / total / dropped-entry count of the aioiov spec, specialised to 3 slots */
+#define T_NIO  OLD(P->txaio.a_nio)
+#define T_L(i) ((i) < T_NIO ? OLD(P->txaio.a_iov[i].iov_len) : (size_t) 0)
+#define T_P1   (T_L(0))
+#define T_P2   (T_P1 + T_L(1))
+#define T_TOT  (T_P2 + T_L(2))
+#define T_PJ(j) ((j) == 0 ? (size_t) 0 : (j) == 1 ? T_P1 : (j) == 2 ? T_P2 : T_TOT)
+#define T_DROP ((T_N == 0 || T_N < T_P1) ? 0u : (T_N == T_P1 || T_N < T_P2) ? VP_MIN(1u, T_NIO) : (T_N == T_P2 || T_N < T_TOT) ? VP_MIN(2u, T_NIO) : T_NIO)
+#define T_CL(i) ((i) < P->txaio.a_nio ? P->txaio.a_iov[i].iov_len : (size_t) 0)
+#define T_CTOT ((T_CL(0) + T_CL(1)) + T_CL(2))
 #define T_HEAD OLD(g_sendq.head)
 #define T_MSG  OLD(g_sendq.head->a_msg)
 static void tcptran_pipe_send_cb(void *arg)
@@ -129,21 +138,31 @@ __CPROVER_requires(__CPROVER_is_fresh(arg, sizeof(tcptran_pipe)) && TF_ENV_PRE(P
 __CPROVER_requires(g_sendq.n >= 1 && __CPROVER_is_fresh(g_sendq.head, sizeof(nni_aio)) && TF_MSG_PRE(g_sendq.head->a_msg))
 /* ... and whoever is queued behind it carries a message too */
 __CPROVER_requires(g_sendq.n < 2 || (__CPROVER_is_fresh(g_sendq.next, sizeof(nni_aio)) && TF_MSG_PRE(g_sendq.next->a_msg)))
-__CPROVER_requires(TF_Q_OK(g_sendq))
+/* an aio waits in at most one queue */
+__CPROVER_requires(TF_Q_OK(g_sendq) && (g_recvq.n == 0 || g_recvq.head != g_sendq.head))
 /* the vector in flight: up to three existing buffers (prefix, header, body or what is left of them) */
 __CPROVER_requires(P->txaio.a_nio <= 3 && TX_ENT_PRE(0) && TX_ENT_PRE(1) && TX_ENT_PRE(2))
 /* ASSUMED about the stream layer: a successful completion reports at most what was asked for */
-__CPROVER_requires(P->txaio.a_result != 0 || P->txaio.a_count <= IOV_TOTAL(IOV_CL, IOV_CN, TXA))
+__CPROVER_requires(P->txaio.a_result != 0 || P->txaio.a_count <= T_CTOT)
+__CPROVER_requires(T_CL(0) <= VIOV_LENMAX && T_CL(1) <= VIOV_LENMAX && T_CL(2) <= VIOV_LENMAX)
 __CPROVER_assigns(__CPROVER_object_upto(&P->txlen[0], sizeof(P->txlen)), TF_IOV_OF(P->txaio), g_sendq, g_sendq.head->a_msg, TF_FIN_GHOSTS, TF_IO_GHOSTS, TF_MSG_GHOSTS, TF_BUMP_GHOSTS, VP_SYNC_GHOSTS)
 __CPROVER_frees(g_sendq.head->a_msg, g_sendq.head->a_msg->vm_body)
 __CPROVER_ensures(VP_NO_LOCK_HELD)
 /* error: the sender is told; its message is still attached and not freed */
 __CPROVER_ensures(T_RV != 0 ==> (TF_FIN_IS(T_HEAD, T_RV, 0) && g_sendq.n == OLD(g_sendq.n) - 1 && T_HEAD->a_msg == T_MSG && g_msg_freed == OLD(g_msg_freed) && TF_NO_IO))
-/* partial: continue with the advanced vector (same bytes minus the first n), nothing completed or freed */
-__CPROVER_ensures((T_RV == 0 && T_N < T_TOT) ==> (IOV_TOTAL(IOV_CL, IOV_CN, TXA) == T_TOT - T_N && TF_SEND_ARMED(P) && g_sendq.n == OLD(g_sendq.n) && g_sendq.head == T_HEAD && T_HEAD->a_msg == T_MSG && g_fin_calls == OLD(g_fin_calls) && g_msg_freed == OLD(g_msg_freed)))
-__CPROVER_ensures((T_RV == 0 && T_N < T_TOT && g_k < T_TOT - T_N) ==> IOV_LOC(IOV_CL, IOV_CB, IOV_CN, TXA, g_k) == IOV_LOC(IOV_OL, IOV_OB, IOV_ON, TXA, g_k + T_N))
+/* partial: continue with the advanced vector (entries used up are dropped in order, the first survivor
+ * loses its consumed front, exactly n bytes fewer remain), nothing completed or freed */
+__CPROVER_ensures((T_RV == 0 && T_N < T_TOT) ==> (TF_SEND_ARMED(P) && g_sendq.n == OLD(g_sendq.n) && g_sendq.head == T_HEAD && T_HEAD->a_msg == T_MSG && g_fin_calls == OLD(g_fin_calls) && g_msg_freed == OLD(g_msg_freed)))
+__CPROVER_ensures((T_RV == 0 && T_N < T_TOT) ==> (P->txaio.a_nio == T_NIO - T_DROP && P->txaio.a_nio >= 1))
+__CPROVER_ensures((T_RV == 0 && T_N < T_TOT && g_n == T_DROP && g_n < 3) ==> (P->txaio.a_iov[0].iov_len == OLD(P->txaio.a_iov[g_n & 3u].iov_len) - (T_N - T_PJ(g_n)) && (T_N == T_PJ(g_n) ? P->txaio.a_iov[0].iov_buf == OLD(P->txaio.a_iov[g_n & 3u].iov_buf) : (char *) P->txaio.a_iov[0].iov_buf == (char *) OLD(P->txaio.a_iov[g_n & 3u].iov_buf) + (T_N - T_PJ(g_n)))))
+__CPROVER_ensures((T_RV == 0 && T_N < T_TOT && g_j >= 1 && g_j < P->txaio.a_nio && g_n == g_j + T_DROP && g_n < 3) ==> (P->txaio.a_iov[g_j & 3u].iov_len == OLD(P->txaio.a_iov[g_n & 3u].iov_len) && P->txaio.a_iov[g_j & 3u].iov_buf == OLD(P->txaio.a_iov[g_n & 3u].iov_buf)))
+#ifdef TF_TX_TOTAL
+__CPROVER_ensures((T_RV == 0 && T_N < T_TOT) ==> T_CTOT == T_TOT - T_N)
+#endif
 /* complete: message freed exactly once and detached from the aio, sender completed with the body length */
-__CPROVER_ensures((T_RV == 0 && T_N == T_TOT) ==> (T_HEAD->a_msg == NULL && g_msg_freed == OLD(g_msg_freed) + 1 && g_msg_freed_last == T_MSG && TF_FIN_IS(T_HEAD, 0, OLD(g_sendq.head->a_msg->vm_blen)) && g_fin_last_sync && g_sendq.n == OLD(g_sendq.n) - 1))
+/* (on a pipe closed meanwhile the senders queued behind it are refused with NNG_ECLOSED first, see send_start) */
+__CPROVER_ensures((T_RV == 0 && T_N == T_TOT) ==> (T_HEAD->a_msg == NULL && g_msg_freed == OLD(g_msg_freed) + 1 && g_msg_freed_last == T_MSG && g_fin_last == T_HEAD && g_fin_last_rv == 0 && g_fin_last_count == OLD(g_sendq.head->a_msg->vm_blen) && g_fin_last_sync))
+__CPROVER_ensures((T_RV == 0 && T_N == T_TOT) ==> (P->closed ? (g_sendq.n == 0 && g_fin_calls == OLD(g_fin_calls) + OLD(g_sendq.n)) : (g_sendq.n == OLD(g_sendq.n) - 1 && g_fin_calls == OLD(g_fin_calls) + 1)))
 /* ... and the next queued message (if any) is started */
 __CPROVER_ensures((T_RV == 0 && T_N == T_TOT) ==> ((g_sendq.n > 0 && !P->closed) ? TF_SEND_ARMED(P) : TF_NO_IO))
 ;
